@@ -285,6 +285,11 @@ class Evaluator:
             if isinstance(b, Deg) and b.v not in ({}, ZERO) and not isinstance(b.v, Top):
                 return Deg(Top(f"attribute `.{e.attr}` of an array"))  # not modelled: cannot decide
             return Other()
+        if isinstance(e, ast.Subscript) and isinstance(e.value, ast.Name) and isinstance(env.get(e.value.id), tuple) and env[e.value.id] and env[e.value.id][0] == "table":
+            k = self.ev(e.slice, env)
+            if isinstance(k, Other) and isinstance(k.const, str) and k.const in env[e.value.id][1]:
+                return env[e.value.id][1][k.const]
+            return Other()
         if isinstance(e, ast.Subscript):
             b = self.ev(e.value, env)
             if isinstance(b, ListV):
@@ -394,11 +399,23 @@ class Evaluator:
             return a
         if isinstance(e, ast.Dict):
             vals = [self.ev(v, env) for v in e.values if v is not None]
+            # a table of routines keyed by literal strings: kept, so that D[k] / D.get(k) with a known k is that routine
+            if e.keys and all(isinstance(k, ast.Constant) and isinstance(k.value, str) for k in e.keys) and all(isinstance(v, tuple) and v and v[0] == "func" for v in vals):
+                return ("table", {k.value: v for k, v in zip(e.keys, vals)})
             if any(isinstance(v, (Deg, ListV)) and degree_of(v) not in ({}, ZERO) for v in vals):
                 return Deg(Top("a dict display holding arrays"))  # not modelled: cannot decide
             return Other()
         if isinstance(e, (ast.ListComp, ast.GeneratorExp)):
             return self.comprehension(e, env)
+        if isinstance(e, ast.Call) and isinstance(e.func, ast.Attribute) and e.func.attr == "get" and 1 <= len(e.args) <= 2 and not e.keywords:
+            tb = self.ev(e.func.value, env)
+            if isinstance(tb, tuple) and tb and tb[0] == "table":
+                k = self.ev(e.args[0], env)
+                if isinstance(k, Other) and isinstance(k.const, str):
+                    if k.const in tb[1]:
+                        return tb[1][k.const]
+                    return self.ev(e.args[1], env) if len(e.args) == 2 else Other(None, True)
+                return Other()
         if isinstance(e, ast.Call):
             return self.call(e, env)
         if isinstance(e, ast.Compare) or isinstance(e, ast.BoolOp):
@@ -491,10 +508,22 @@ class Evaluator:
                 return ListV(ln, el.v, {})
             return Other()
         length = src_list.length
-        if g.ifs:
+        # filters the configuration decides: `if skip is None or position != skip` with skip None keeps everything,
+        # with skip given it is `position != skip`
+        ifs = []
+        for c0 in g.ifs:
+            d0 = self.decide(c0, env)
+            if d0 is True:
+                continue
+            if d0 is None and isinstance(c0, ast.BoolOp) and isinstance(c0.op, ast.Or):
+                rest = [v for v in c0.values if self.decide(v, env) is not False]
+                if len(rest) == 1:
+                    c0 = rest[0]
+            ifs.append(c0)
+        if ifs:
             # `if i != k`: exactly one element is dropped
-            c = g.ifs[0]
-            if len(g.ifs) == 1 and enum and isinstance(c, ast.Compare) and len(c.ops) == 1 and isinstance(c.ops[0], ast.NotEq):
+            c = ifs[0]
+            if len(ifs) == 1 and enum and isinstance(c, ast.Compare) and len(c.ops) == 1 and isinstance(c.ops[0], ast.NotEq):
                 length = (length[0] - 1, length[1]) if length[0] != "?" else length
                 dropped = True
             else:
@@ -918,7 +947,7 @@ class Evaluator:
             v = env.get(t.left.id)
             if isinstance(v, Other) and v.is_none:
                 return isinstance(t.ops[0], (ast.Is, ast.Eq))
-            if isinstance(v, (Deg, ListV)) or (isinstance(v, Other) and v.const is not None):
+            if isinstance(v, (Deg, ListV)) or (isinstance(v, Other) and v.const is not None) or (isinstance(v, tuple) and v and v[0] in ("func", "table", "tuple", "obj")):
                 return isinstance(t.ops[0], (ast.IsNot, ast.NotEq))
         if isinstance(t, ast.Compare) and len(t.ops) == 1 and isinstance(t.ops[0], (ast.Eq, ast.NotEq)) and isinstance(t.left, ast.Name) and isinstance(t.comparators[0], ast.Constant) and isinstance(t.comparators[0].value, str):
             v = env.get(t.left.id)
@@ -1025,6 +1054,10 @@ class Evaluator:
                 d = self.decide(s.test, env)
                 saved = self.n_override
                 nfix = _len_test(s.test, env)
+                if nfix is None and any(isinstance(x, ast.Name) for x in ast.walk(s.test)):
+                    from ..common import inline_locals
+
+                    nfix = _len_test(inline_locals(self.f.node, s.test), env)  # order = len(shape); if order == 1:
                 if d is True:
                     if self.block(s.body, env):
                         return True
